@@ -24,8 +24,11 @@
 package main
 
 import (
+	"bufio"
 	"bytes"
 	"fmt"
+	"hash/fnv"
+	"io"
 	"strconv"
 	"strings"
 	"time"
@@ -53,11 +56,51 @@ func (c config) fresh() *search.GraphIterator {
 	return search.WithPruning(c.n, c.a, c.m, pre, post)
 }
 
+// loadCount selects the kind of reader of the next Load; it is set from the case text at the start
+// of every case, so a case always sees the same kinds.
+var loadCount uint32
+
+// readerOver presents the bytes through one of the standard readers that implement
+// io.ByteReader (so a gob decoder consumes exactly one save); rest reports the bytes not consumed.
+func readerOver(b []byte, kind uint32) (r io.Reader, rest func() int) {
+	switch kind % 3 {
+	case 0:
+		x := bytes.NewReader(b)
+		return x, x.Len
+	case 1:
+		x := bytes.NewBuffer(b)
+		return x, x.Len
+	default:
+		u := bytes.NewReader(b)
+		x := bufio.NewReaderSize(u, 16)
+		return x, func() int { return x.Buffered() + u.Len() }
+	}
+}
+
+// scribble overwrites bytes the caller owns and is done with.
+func scribble(b []byte, kind uint32) {
+	for i := range b {
+		switch kind % 3 {
+		case 0:
+			b[i] = 0xff
+		case 1:
+			b[i] = 0
+		default:
+			b[i] ^= 0x55
+		}
+	}
+}
+
 func (c config) load(b []byte) *search.GraphIterator {
 	pre, post := gx.PruneFuncs(c.pred, c.placement, nil)
-	// a fresh copy of the bytes for every Load: nothing the decoder does to its input can
-	// leak into another iterator
-	return search.Load(bytes.NewReader(append([]byte(nil), b...)), pre, post)
+	// a fresh copy of the bytes for every Load, overwritten as soon as Load has returned:
+	// the loaded iterator must not depend on its input any more
+	cp := append([]byte(nil), b...)
+	loadCount++
+	r, _ := readerOver(cp, loadCount)
+	it := search.Load(r, pre, post)
+	scribble(cp, loadCount/3)
+	return it
 }
 
 // reference output of a configuration, cached per worker (a pure function of the case).
@@ -88,6 +131,9 @@ type track struct {
 	it     *search.GraphIterator
 	pos    int // number of graphs yielded so far
 	falses int // number of times Next has answered false
+	ref    []string // reference sequence of this iterator's configuration (nil: the runner's)
+	cfg    *config  // its configuration (nil: the case's)
+	stride int      // 0: Value() after every yield; j > 0: only after every j-th; -1: twice
 }
 
 type runner struct {
@@ -106,15 +152,29 @@ func (r *runner) fail(key, format string, a ...interface{}) {
 // finished (has answered false) or has diverged.
 func (r *runner) step(t *track) bool {
 	ok := t.it.Next()
-	if t.pos < len(r.ref) {
+	ref := r.ref
+	if t.ref != nil {
+		ref = t.ref
+	}
+	if t.pos < len(ref) {
 		if !ok {
-			r.fail("C04:short", "%s stops after %d graphs, the undisturbed iterator yields %d", t.name, t.pos, len(r.ref))
+			r.fail("C04:short", "%s stops after %d graphs, the undisturbed iterator yields %d", t.name, t.pos, len(ref))
 			t.falses++
 			return false
 		}
+		// Value is an optional observer: usage cases also skip it or call it twice
+		if t.stride > 0 && t.pos%t.stride != 0 {
+			t.pos++
+			return true
+		}
 		got := gx.Snapshot(t.it.Value())
-		if got != r.ref[t.pos] {
-			r.fail("C04:sequence", "%s: graph #%d is [%s], the undisturbed iterator yields [%s]", t.name, t.pos, got, r.ref[t.pos])
+		if t.stride < 0 {
+			if again := gx.Snapshot(t.it.Value()); again != got {
+				r.fail("C04:value-twice", "%s: two calls of Value after graph #%d show [%s] and [%s]", t.name, t.pos, got, again)
+			}
+		}
+		if got != ref[t.pos] {
+			r.fail("C04:sequence", "%s: graph #%d is [%s], the undisturbed iterator yields [%s]", t.name, t.pos, got, ref[t.pos])
 			t.pos++
 			return false
 		}
@@ -122,7 +182,7 @@ func (r *runner) step(t *track) bool {
 		return true
 	}
 	if ok {
-		r.fail("C04:extra", "%s yields a graph after the %d graphs of the undisturbed iterator: [%s]", t.name, len(r.ref), gx.Snapshot(t.it.Value()))
+		r.fail("C04:extra", "%s yields a graph after the %d graphs of the undisturbed iterator: [%s]", t.name, len(ref), gx.Snapshot(t.it.Value()))
 		return false
 	}
 	t.falses++
@@ -177,6 +237,12 @@ func exec(line string) hx.Result {
 }
 
 func exec1(line string) hx.Result {
+	h := fnv.New32a()
+	h.Write([]byte(line))
+	loadCount = h.Sum32() % 9
+	if strings.HasPrefix(line, "F ") {
+		return execForeign(line)
+	}
 	if strings.HasPrefix(line, "S ") {
 		return execState(line)
 	}
@@ -386,6 +452,19 @@ func stateCases(g *hx.Gen, c config, step int) {
 	}
 }
 
+// statePositions emits state cases at the given ascending positions of c.
+func statePositions(g *hx.Gen, c config, ps []int) {
+	defer func() { recover() }()
+	it := c.fresh()
+	k := 0
+	for _, p := range ps {
+		for ; k < p; k++ {
+			it.Next()
+		}
+		g.Emit(fmt.Sprintf("S %s %d|%s", c.String(), k, dumpFull(search.VerifDump(it))))
+	}
+}
+
 // outputLen is used by the generator only, to enumerate the save positions of a configuration.
 // It runs in the generating process, so a panic of the code under test is caught here (the
 // positions are then enumerated up to a default length and the workers report the panic).
@@ -466,6 +545,31 @@ func gen(g *hx.Gen) {
 	// every position of whole runs of n = 8, extreme internal states of n = 9, 10; usage patterns
 	genSweeps(g)
 	genUsage(g)
+	genForeign(g)
+	// degenerate predicates at every position, all interleavings
+	for n := 0; n <= 6; n++ {
+		for _, c := range configs(n, []int{1, 2}, gx.ExtremePreds) {
+			if c.pred == "none" {
+				continue
+			}
+			L := outputLen(c)
+			for k := 0; k <= L+2; k++ {
+				for mode := 0; mode < 8; mode += 3 {
+					emit(c, mode, k)
+					emit(c, mode, k, 1)
+				}
+			}
+			stateCases(g, c, 1)
+		}
+	}
+	// the complete state at the positions of extreme internal state of n = 8, 9 (model of Save / Load)
+	for _, c := range []config{{8, 0, 1, "none", "-"}, {8, 1, 2, "none", "-"}, {9, 0, 1, "none", "-"}} {
+		if c.n == 9 && !g.Thorough() {
+			statePositions(g, c, extremes(scan(c, 20000)))
+		} else {
+			statePositions(g, c, extremes(scan(c, 1<<30)))
+		}
+	}
 	// sampled positions for the larger sizes, other moduli, and longer chains
 	type plan struct {
 		n     int
